@@ -192,7 +192,31 @@ int nev_execute(program * prog, vm * machine, object * result)
         machine->ip = prog->module_value->code_entry;
     }
 
-    return vm_execute(machine, prog, result);
+    {
+        /* a run that does not halt normally (unhandled exception, failed assert) must not
+           leave its frames on the VM stack, nor a half-initialised VM marked initialised */
+        int ret;
+        stack_ptr sp = machine->sp;
+        stack_ptr fp = machine->fp;
+        stack_ptr pp = machine->pp;
+        mem_ptr gp = machine->gp;
+        unsigned int first = (machine->ip == 0);
+
+        ret = vm_execute(machine, prog, result);
+        if (ret != 0)
+        {
+            machine->sp = sp;
+            machine->fp = fp;
+            machine->pp = pp;
+            machine->gp = gp;
+            if (first)
+            {
+                machine->initialized = 0;
+            }
+        }
+
+        return ret;
+    }
 }
 
 int nev_prepare(program * prog, const char * entry_name)
